@@ -119,6 +119,7 @@ package wasp
 
 //@ func (*packetProcessor).publishHandler(ctx context.Context, sender string, publish *packet.Publish, cb func(publish *packet.Publish)) (err error)
 //@   requires processor != nil && publish != nil && publish.Header != nil
+//@   ensures [C13] err != ErrSessionDisconnected
 //@   records #handed := old(#handed) + (if err == nil then 1 else 0)
 //@   records #lastHanded := (if err == nil then publish else old(#lastHanded))
 //@   records #lastHandedHasCb := (if err == nil then cb != nil else old(#lastHandedHasCb))
@@ -156,12 +157,28 @@ package wasp
 // C12: a keep-alive ping is answered only while the client identifier still resolves to THIS session; otherwise (the client has
 // reconnected elsewhere, or its record is gone) the session is told to end and nothing is written
 //@   ensures [C12] typeis(pkt, *packet.PingReq) && !(#lastLookupFound && #lastLookupSession == session.id) ==> err == ErrSessionDisconnected && #wire[13] == old(#wire)[13]
+// C13: Process reports a cleanly ended session only for a DISCONNECT packet (and for the keep-alive exchange of a session that
+// was displaced, which is not a death of the client): a protocol error, a second CONNECT, a failed write all end the session
+// with another error, so that the will is published
+//@   ensures [C13] err == ErrSessionDisconnected ==> typeis(pkt, *packet.Disconnect) || typeis(pkt, *packet.PingReq)
+// (marking the session as cleanly ended is the connection loop's business, not Process's; acknowledgement packets run callbacks
+// of the in-flight table about which nothing is known here)
+//@   ensures [C13] !(typeis(pkt, *packet.PubAck) || typeis(pkt, *packet.PubRec) || typeis(pkt, *packet.PubRel) || typeis(pkt, *packet.PubComp)) ==> session.Disconnected == old(session.Disconnected)
+//@   ensures [C13] err != nil ==> session.Disconnected == old(session.Disconnected)
 //@   ensures [C12] typeis(pkt, *packet.PingReq) && #lastLookupFound && #lastLookupSession == session.id ==> #wire[13] == old(#wire)[13] + 1
 // C17: the topic of an inbound publish (a will included) is moved into the session's mount point before anything else sees it
 //@   ensures [C17] typeis(pkt, *packet.Publish) ==> prefixed(session.mountPoint, old(unbox(pkt, *packet.Publish).Topic), unbox(pkt, *packet.Publish).Topic)
 // C11: Process reports an error (which ends the session) only for the causes the protocol allows
 //@   ensures [C11] typeis(pkt, *packet.Connect) ==> err != nil
 //@   ensures [C11] typeis(pkt, *packet.Disconnect) ==> err != nil
+
+// C02 ("... and across message-log segment rolls and truncation"): the log consumer schedules offsets into the writer's queue and
+// the writer reads each record back from the log by its offset; truncation stays 300 records behind the consumer
+// (messages.store.maybeTruncate), so the offsets waiting in the queue plus the one in hand have to stay well within that margin
+//@ func NewWriter(peerID uint64, subscriptions distributed.SubscriptionsState, local LocalState, ackQueue ack.Queue) (w *writer)
+//@   ensures [C02] 0 <= #writerQueueCap && #writerQueueCap + 1 < 300
+//@ ghost-after NewWriter makechan
+//@   set #writerQueueCap := size
 
 //@ func (Writer).Send(w Writer, ctx context.Context, recipients []string, qosses []int32, p *packet.Publish)
 //@   modifies #writerSends
@@ -459,6 +476,8 @@ package wasp
 //@   modifies *, #handed, #lastHanded, #lastHandedHasCb, #wire, #lastWireTo, #lastWirePkt, #inserts, #lastInsertPkt, #lastInsertPrefix, #ackCalls, #subCreates, #subDeletes, #lastSubPattern, #lastSubSession, #topicGets, #writerSends
 //@   ensures #handed <= old(#handed) + 1
 //@   ensures typeis(pkt, *packet.Publish) ==> #subDeletes == old(#subDeletes) && #subCreates == old(#subCreates)
+// (proved for the implementation under C13: an answer that ends the session leaves the clean-end mark alone)
+//@   ensures err != nil ==> session.Disconnected == old(session.Disconnected)
 //@   records #processCalls := old(#processCalls) + 1
 //@   records #lastProcessed := pkt
 //@   records #lastProcessedNilWriter := c == nil
@@ -507,6 +526,9 @@ package wasp
 //@   ensures [C11] #decodes == old(#decodes) + 1 && #processCalls <= old(#processCalls) + 1
 // C13: a DISCONNECT packet (Process answers ErrSessionDisconnected) marks the session as cleanly ended, so that no will is sent
 //@   ensures [C13] #processCalls == old(#processCalls) + 1 && #lastProcessErr == ErrSessionDisconnected ==> session.Disconnected && !ok
+// ... and only then: a read error (connection closed, keep-alive expired, undecodable bytes) or any other answer of Process leaves
+// the session marked as it was
+//@   ensures [C13] !ok && session.Disconnected && !old(session.Disconnected) ==> #processCalls == old(#processCalls) + 1 && #lastProcessErr == ErrSessionDisconnected
 // C12: the session goes on only after a packet that was processed without error: the PINGREQ of a displaced session (Process
 // answers ErrSessionDisconnected) ends it, as does every other error
 //@   ensures [C12] ok ==> #processCalls == old(#processCalls) + 1 && #lastProcessErr == nil
